@@ -100,7 +100,9 @@ def defer_measurements(
     measurement_qubits: dict[cirq.MeasurementKey, list[tuple[cirq.Qid, ...]]] = defaultdict(list)
 
     def defer(op: cirq.Operation, _) -> cirq.OP_TREE:
-        if op in terminal_measurements:
+        if op in terminal_measurements and not (
+            protocols.measurement_key_objs(op) & measurement_qubits.keys()
+        ):
             return op
         gate = op.gate
         if isinstance(gate, ops.MeasurementGate):
